@@ -180,10 +180,15 @@ def gen_tree(rnd):
         for conf in rnd.sample(['10-a.conf', '20-b.conf'], rnd.randint(0, 2)):
             if rnd.random() < 0.6 and ty in DROPIN_LINES:
                 files[rnd.choice(['src', 'alt']) + f'/{name}.d/{conf}'] = '[' + G.SEC[ty] + ']\n' + rnd.choice(DROPIN_LINES[ty]) + '\n'
+        if ty == 'pod' and rnd.random() < 0.35:
+            # the user's own [Unit] entries of the pod may already name a member's service (or anything else): they stay, and the
+            # generator still adds its Wants= and Before= for every member
+            cands = [n[:-len('.container')] + '.service' for n in fs if n.endswith('.container')] + ['elsewhere.service']
+            files[f'src/{name}.d/30-unit.conf'] = '[Unit]\n' + ''.join(rnd.choice(['Wants=', 'Wants=', 'Before=']) + rnd.choice(cands) + '\n' for _ in range(rnd.randint(1, 2)))
     return fs, files, links
 
 
-def wiring_failures(printed):
+def wiring_failures(printed, files=None):
     """printed: list of (service path, text) of one --dry-run; checks pod<->container consistency on what was generated"""
     fails = []
     units = {}
@@ -220,7 +225,13 @@ def wiring_failures(printed):
         unit = pods[pod]['text'].split('[Unit]', 1)[1].split('\n[', 1)[0].replace('\\x20', ' ').replace('"', '')
         wants = sorted(v for v in re.findall(r'^Wants=(.*)$', unit, re.M) if v != 'network-online.target')
         before = sorted(re.findall(r'^Before=(.*)$', unit, re.M))
-        if wants != sorted(ms) or before != sorted(ms):
+        # what the user wrote in the pod's own [Unit] (here: the 30-unit.conf drop-in) is kept besides
+        own = (files or {}).get(f'src/{pod}.d/30-unit.conf', '')
+        ms = list(ms)
+        wants_user, before_user = re.findall(r'^Wants=(.*)$', own, re.M), re.findall(r'^Before=(.*)$', own, re.M)
+        if wants != sorted(ms + wants_user) or before != sorted(ms + before_user):
+            fails.append(f'{pod}: Wants {wants} / Before {before} must be the user\'s own ({wants_user} / {before_user}) and one each for the services generated for its containers {sorted(ms)}')
+        elif False:
             fails.append(f'{pod}: Wants {wants} / Before {before} differ from the services generated for its containers {sorted(ms)}')
         if '%t/%N.pod-id' not in pods[pod]['text']:
             fails.append(f'{pod}: does not write %t/%N.pod-id')
@@ -259,7 +270,7 @@ def oracle(ctx):
         names = [os.path.basename(p) for p, _ in printed]
         if len(names) != len(set(names)):
             continue
-        for f in wiring_failures(printed):
+        for f in wiring_failures(printed, files):
             res.oracle_failures.append(dict(op='e2e', input=files, impl_output=dict(exit=rc, services=names), oracle_expectation=f))
     # membership is decided by the *effective* Pod= / StartWithPod= (C15: the last assignment, drop-ins merged in name order after the
     # main file): a container whose file assigns them several times generates the same services when the later assignments are moved
